@@ -316,6 +316,12 @@ DIRECTED = [
     ('isar: include name with a line break', '--isar', {'a.xml': ISAR % '<xi:include href="types&#10;v2.xml"/><struct name="A"><member name="a" type="u8"/></struct>'}, 'a.xml', 'reject'),
     ('type larger than 64 bits can count', None, {'a.prophy': 'struct S0 { u64 a[4294967295]; };\nstruct S1 { S0 a[4294967295]; };\nstruct S2 { S1 a[4294967295]; };\n'},
      'a.prophy', 'reject'),
+    ('isar: enumerator referring to a later enumerator of its enum', '--isar',
+     {'a.xml': ISAR % '<enum name="E"><enum-member name="E_A" value="E_B + 1"/><enum-member name="E_B" value="1"/></enum><struct name="S"><member name="e" type="E"/></struct>'},
+     'a.xml', 'reject'),
+    ('isar: enumerator referring to an earlier enumerator of its enum', '--isar',
+     {'a.xml': ISAR % '<enum name="E"><enum-member name="E_B" value="1"/><enum-member name="E_A" value="E_B + 1"/></enum><struct name="S"><member name="e" type="E"/></struct>'},
+     'a.xml', 'usable'),
     ('isar: enumerator below -2^31', '--isar',
      {'a.xml': ISAR % '<enum name="E"><enum-member name="E_A" value="-4294967295"/></enum>'}, 'a.xml', 'reject'),
     ('isar: negative enumerator within 32 bits', '--isar',
